@@ -10,7 +10,9 @@ def run(ctx, rep):
     sync.rule_O2_done_after_release(mod, rep)
     sync.rule_O3_busy_skip(mod, rep)
     sync.rule_O4_spin_before_busy_update(mod, rep)
+    sync.rule_O4c_fresh_rep(mod, rep)
     sync.rule_O5_volatile(mod, rep)
+    sync.rule_O9b_relaxed_marking(mod, rep)
     sync.rule_O9_supernode_extension(mod, rep)
     sync.rule_state_enum(mod, rep)
     sync.rule_O6_prune_dfs(mod, rep)
